@@ -19,6 +19,8 @@ func main() {
 		devCmd(os.Args[2:])
 	case "check":
 		checkCmd(os.Args[2:])
+	case "selftest":
+		selftestCmd(os.Args[2:])
 	default:
 		fmt.Fprintln(os.Stderr, "unknown command")
 		os.Exit(2)
